@@ -587,6 +587,38 @@ def gen_cases(ctx):
     return cases
 
 
+def big_natural_cases(ctx):
+    """LARGE splines (66 .. 80 coefficients): the natural cubic layout on 64+ distinct knots - repeated end sites carrying
+    second-derivative conditions, so that an interior-row site EQUALS the last knot - and a quadratic with plain end sites"""
+    rng = random.Random(ctx.seed * 86028121 + 31)
+    out = []
+    for k, nk in ([(4, 70)] if ctx.tier != "thorough" else [(4, 70), (4, 64), (3, 78), (5, 66)]):
+        xs = [float(i) for i in range(nk)]
+        t = [xs[0]] * (k - 1) + xs + [xs[-1]] * (k - 1)
+        n = len(t) - k
+        if k == 4:
+            tau = [xs[0]] + xs + [xs[-1]]
+            ln = rn = 2
+        else:
+            # n sites: the knots plus midpoints near the ends
+            extra = n - nk
+            tau = sorted(xs + [xs[0] + 0.5 + j for j in range(extra)])
+            ln = rn = 0
+        pc = [1.0, -0.5, 0.25, 0.01][:k]
+        vals = []
+        for j, x in enumerate(tau):
+            m_ = ln if j == 0 else rn if j == len(tau) - 1 else 0
+            vals.append(poly_eval(pc, x / 10.0, m_) / 10.0 ** m_)
+        kind = rng.choice(["f64", "dual"])
+        y = vals if kind == "f64" else [(v, ["y%d" % (j % 3)], [1.0]) for j, v in enumerate(vals)]
+        qs = [("f", x, m) for x in (xs[0], 0.37, 33.5, xs[-1] - 0.25, xs[-1]) for m in (0, 1)]
+        qs += [("d", (12.25, ["x"], [1.0]), 0), ("d2", (xs[-1], ["x"], [1.0], [[0.0]]), 0)]
+        out.append({"kind": kind, "k": k, "t": t, "label": "large natural layout" if k == 4 else "large", "scale": ("unit", 0.0, 1.0),
+                    "variant": "solve", "queries": qs,
+                    "solve": {"tau": tau, "y": y, "left_n": ln, "right_n": rn, "lsq": False}})
+    return out
+
+
 def compare_case(ctx, ci, c, a, b, stats):
     try:
         da = decode(c, a)
@@ -730,6 +762,11 @@ def gen_basis_cases(ctx):
     for _ in range(6000 if th else 900 * ctx.scale):
         k = rng.choice([1, 2, 2, 3, 3, 4, 4, 5])
         t = gen_knots(rng, k)
+        if rng.random() < 0.3:
+            # knots in a LARGE unit (POSIX seconds: offset 1.5e9, spacing 1e7 .. 1e9) or a tiny one: the curvature of a basis
+            # function is then 1e-16 .. 1e-18 (or 1e12) in absolute size and still the curvature
+            off, h = rng.choice([(1.5e9, 1e7), (1.5e9, 3.15e7), (0.0, 1e8), (1.2e9, 1e9), (0.0, 1e-6)])
+            t = [off + h * v for v in t]
         n = len(t) - k
         i = rng.randrange(max(1, n)) if rng.random() < 0.93 else rng.choice([n, n + 1, n + k])
         r = rng.random()
@@ -744,7 +781,7 @@ def gen_basis_cases(ctx):
         elif r < 0.9:
             x = rng.uniform(t[0], t[-1])
         else:
-            x = rng.choice([t[0] - 1.0, t[-1] + 0.5])
+            x = rng.choice([t[0] - 1.0 * max(1.0, t[-1] - t[0]), t[-1] + 0.5 * max(1.0, t[-1] - t[0])])
         ro = rng.random()
         org = None if ro < 0.8 else (k if ro < 0.9 else rng.choice([k + 1, max(1, k - 1)]))
         kind = rng.choice([1, 2])
@@ -758,7 +795,8 @@ def gen_basis_cases(ctx):
         out.append(("evd", e, "bsplev_single_%s(X = %r, i = %d, k = %d, t = %r, org_k = %r)" % (
             "dual" if kind == 1 else "dual2", X, i, k, t, org), ["dual" if kind == 1 else "dual2"],
             "%s abscissa %s, org_k %s%s" % ("Dual" if kind == 1 else "Dual2", where, "None" if org is None else "Some",
-                                           ", i out of range" if i >= n else "")))
+                                           ", i out of range" if i >= n else ""),
+            {"k": k, "t": t, "X": X, "kind": kind}))
     for _ in range(1500 if th else 250 * ctx.scale):
         k = rng.choice([1, 2, 3, 3, 4, 4, 5])
         t = gen_knots(rng, k)
@@ -882,6 +920,26 @@ def basis_stage(ctx, only=None):
             if da[1] != [c[5], c[5]]:
                 ok = False
                 why = "== of two splines answers %s where %s is required" % (da[1], [c[5], c[5]])
+        if ok and tag == "evd" and da[0] == "ok" and len(c) > 5 and isinstance(c[5], dict):
+            # EVERY COMPONENT TO ITS OWN SIZE: slope and curvature of one basis function carried by the abscissa, compared relative
+            # to themselves (1e-7) plus the rounding noise of their own recursion 4e-13 (2k / h)^o |dX|^o - on knots 1e8 apart
+            # a curvature of 1e-17 is the curvature, not noise
+            info = c[5]
+            gaps = [q - p_ for p_, q in zip(info["t"], info["t"][1:]) if q > p_]
+            D = 2.0 * max(info["k"], 1) / min(gaps) if gaps else 1.0
+            dxs = [abs(v) for v in info["X"][2]] + ([abs(v) for row in info["X"][3] for v in row] if len(info["X"]) > 3 else [])
+            dxm = max(dxs + [0.0])
+            ia, ib = da[1][0], db[1][0]
+            comps = [(1, p_[1], q[1]) for p_, q in zip(ia["du"], ib["du"])]
+            if info["kind"] == 2:
+                comps += [(2, p_[1], q[1]) for p_, q in zip(ia["dd"]["data"], ib["dd"]["data"])]
+            for o, p_, q in comps:
+                if p_ == q or (p_ != p_ and q != q):
+                    continue
+                if not (abs(p_ - q) <= 1e-7 * max(abs(p_), abs(q)) + 4e-13 * (D ** o) * max(dxm, dxm ** o) + 1e-300):
+                    ok = False
+                    why = "a sensitivity of order %d differs relative to its own size (%r vs %r)" % (o, p_, q)
+                    break
         if not ok:
             ctx.violation("%s on %s: implementation %s, model %s" % (why, desc[:700], str(dg.plain(da))[:300], str(dg.plain(db))[:300]),
                           {"case": e, "basis_op": tag, "what_op": desc[:2000], "schema": sch, "implementation": dg.plain(da),
@@ -985,7 +1043,7 @@ def run(ctx):
         return ctx.finish("make theories/Props/C15.vo")
     if not harness_stage(ctx):
         return ctx.finish("make theories/Props/C15.vo")
-    cases = gen_cases(ctx)
+    cases = gen_cases(ctx) + big_natural_cases(ctx)
     enc = [enc_case(c) for c in cases]
     impl = run_harness("spline", [hline(z) for z in enc])
     shard = max(1, min(20, len(enc) // (NCPU * 2) + 1))
